@@ -325,8 +325,24 @@ type vcase struct {
 
 var hugeEvery = 97 // one success value in hugeEvery is a megabyte or more (thorough: fewer, the run is 250x longer)
 
+// the grid at the head of every run: plain errors carrying their own HTTP status x error texts that are themselves JSON
+// (an upstream reply passed on verbatim) — every combination, always also over the loopback server through ApiRequest
+var gridStatuses = []int{201, 202, 203, 206, 226, 300, 399, 400, 404, 500, 599}
+var gridMessages = []string{`{"code":0}`, `{"code":0,"data":null}`, `{"code":0,"server":1,"data":"ok"}`, `{"code":100}`, `[]`, `null`, `"x"`, `{"data":1}`, `plain text`}
+
 func genCase(r *vrand.Rand, i int) *vcase {
 	c := &vcase{idx: i}
+	if i < len(gridStatuses)*len(gridMessages) {
+		c.kind, c.status, c.huge = kPlainStatus, gridStatuses[i/len(gridMessages)], true // huge: forces the loopback leg
+		msg := gridMessages[i%len(gridMessages)]
+		c.err = &verifStatusErr{msg, c.status}
+		c.shape = "Status()"
+		_, jerr := decodeNum([]byte(msg))
+		c.jsonMsg = jerr == nil
+		c.handler = oh.Error(nil, c.err)
+		c.desc = fmt.Sprintf("Error(plain %s %q status=%d) [grid]", c.shape, msg, c.status)
+		return c
+	}
 	x := r.Intn(100)
 	switch {
 	case x < 45:
